@@ -8,7 +8,11 @@ from checks import mutexlib as ml
 
 
 def run(ctx):
-    rpf = fl.build(ctx)
+    # the future replayer over int, a 64-byte copy-counted object, and a move-only instance-counted object that is OVER-ALIGNED
+    # (alignas(64) > __STDCPP_DEFAULT_NEW_ALIGNMENT__: a heap copy of it would go through the aligned forms of operator new; the
+    # replaced global operator new counts every form - plain, array, aligned, nothrow)
+    fb = fl.build_all(ctx, ["int", "big", "trk64"])
+    rpf = fb["int"]
     rpm = ml.build(ctx)
     # creating, resolving, awaiting (coroutine / blocking / callback) and destroying future/promise pairs;
     # up to three ready coroutines carried by the suspend point returned from the resolution
@@ -25,10 +29,22 @@ def run(ctx):
     # the same protocol over a 64-byte tracked payload (does not fit the small buffers of type-erasing wrappers; copies
     # are counted: constructed in place, read by reference - the library never needs to copy it), every API form, and the
     # value resolver going through promise::bind(args...)()
-    rpb = fl.build_big(ctx)
-    fl.run_mixes(ctx, rpb, fjobs[:3] if ctx.quick else fjobs[:12], max_paths=200 if ctx.quick else None, tagp="b")
-    fl.run_mixes(ctx, rpb, [(["val"], ["co"]), (["val"], ["bl", "cb"]), (["val"], [])] + ([] if ctx.quick else [(["val"], ["co", "co", "co"]), (["val"], ["hv", "bl"])]),
-                 max_paths=200 if ctx.quick else None, tagp="bind", bind=True)
+    rpb = fb["big"]
+    mp = 200 if ctx.quick else None
+    more = [{"rp": rpb, "r": r, "w": w, "tag": "b%d" % k, "max_paths": mp} for k, (r, w) in enumerate(fjobs[:3] if ctx.quick else fjobs[:12])]
+    bindjobs = [(["val"], ["co"]), (["val"], ["bl", "cb"]), (["val"], [])] + ([] if ctx.quick else [(["val"], ["co", "co", "co"]), (["val"], ["hv", "bl"])])
+    more += [{"rp": rpb, "r": r, "w": w, "tag": "bind%d" % k, "max_paths": mp, "bind": True} for k, (r, w) in enumerate(bindjobs)]
+    # the over-aligned move-only object: resolution by every value-taking call form (operator(), set_value, async::start(promise),
+    # co_return of a started coroutine, bind(x)()), waiting and reading by every kind of waiter: allocs stays 0 on every step, and so
+    # do the instance counts (one stored instance when a value won, none otherwise)
+    tjobs = [(["val"], ["co", "co", "co"]), (["val", "val"], ["co", "cb"]), (["val", "exc"], ["bl", "hv"]), (["final"], ["co", "bl"])]
+    if not ctx.quick:
+        tjobs += [(["val", "dtor"], ["cb", "bl", "co"]), (["val", "drop", "mdes"], ["co"]), (["val"], ["hv", "hv", "bl"]), (["val", "ovw"], ["co", "cb"])]
+    more += [{"rp": fb["trk64"], "r": r, "w": w, "tag": "t%d" % k, "max_paths": mp, "trk": True} for k, (r, w) in enumerate(tjobs)]
+    more += [{"rp": fb["trk64"], "r": r, "w": w, "tag": "tbind%d" % k, "max_paths": mp, "trk": True, "bind": True}
+             for k, (r, w) in enumerate(bindjobs[:2] if ctx.quick else bindjobs)]
+    fl.run_jobs(ctx, more, par=8)
+    fm = fm + ctx.extra.get("more_mixes", [])
     ml.run_mixes(ctx, rpm, mjobs, max_paths=300 if ctx.quick else 20000)
     ctx.extra["mixes"] = {"future": fm, "mutex": ctx.extra.get("mixes", [])}
     # stepping a synchronous generator in every access style (Generator.tla restricted to synchronous bodies): the
@@ -48,6 +64,6 @@ def run(ctx):
             c06.alloc_replay(ctx)
     except ImportError:
         pass
-    ctx.assume("value types int and a 64-byte trivially destructible tracked object (neither allocates); std::make_exception_ptr of the test exception is the caller's allocation")
+    ctx.assume("value types int, a 64-byte trivially destructible tracked object and a move-only instance-counted alignas(64) object (none allocates); std::make_exception_ptr of the test exception is the caller's allocation")
     ctx.assume("the lazily constructed thread-local ready queue (std::deque, once per thread) is not attributed to any operation: threads touch it before measurement")
     ctx.assume("more than three coroutine waiters released by one resolution (suspend point heap growth) is outside the property's 'up to three' clause and not exercised here")
